@@ -119,6 +119,12 @@ structure Server where
   portCo : Bool := false
   /-- operating state of the co-located database client (installed CLOSED; run by the host's start-up actions or `run()`) -/
   coApp : AppState := .closed
+  /-- deleted copies of `database.db` kept by the (live) `database` folder, oldest first: what `restore file` brings back -/
+  fileDeleted : List FHealth := []
+  /-- the same for the (live) `downloads` folder -/
+  dlDeleted : List FHealth := []
+  /-- the FTP client's health is COMPROMISED (`compromise` request; cleared by `fix`) -/
+  ftpcComp : Bool := false
   /-- FTP client: restart countdown (while RESTARTING) and fix countdown (`some n` = health FIXING, `none` = GOOD) -/
   ftpcRestartCd : Nat := 0
   ftpcFix : Option Nat := none
@@ -132,6 +138,8 @@ structure Backup where
   ftps : SvcState := .running
   /-- `<db-service-uuid>/database.db` on the backup host -/
   stored : Option FHealth := none
+  /-- copies stored by EARLIER instances of the database service (other uuid folders): never read again -/
+  orphans : List FHealth := []
 deriving DecidableEq, Repr
 
 structure Client where
@@ -330,6 +338,44 @@ def Payload.raw : Payload → Raw
   | .junk .noType => { connId := some none, sql := some .select }
   | .junk .unknownType => { type := some .other }
 
+/-! ### an answer as the CLIENT sees it (vocabulary of the translated `DatabaseClient`, Gen/DatabaseClientTr.lean) -/
+
+inductive AType | connectResponse | sql | disconnect | other
+deriving DecidableEq, Repr
+
+/-- what `DatabaseClient.receive` looks at -/
+structure Ans where
+  isDict : Bool := true
+  /-- `payload.get("type")` when truthy -/
+  type : Option AType := none
+  /-- `payload["response"] is True` -/
+  response : Bool := false
+  /-- `payload["connection_id"]` -/
+  connId : Option Nat := none
+  /-- `payload.get("status_code")` -/
+  status : Nat := 0
+  /-- `payload.get("uuid")` is the id of the query that is waiting -/
+  uuid : Bool := false
+deriving DecidableEq, Repr
+
+/-- what the answer handler leaves behind for the call that is waiting: `_client_connection_requests[request_id]` (a connection
+object with this id), `_query_success_tracker[query_id]`, a server-side disconnect command -/
+structure Inbox where
+  created : Option Nat := none
+  tracked : Option Bool := none
+  dropped : Option Nat := none
+deriving DecidableEq, Repr
+
+/-- the answer the database service sends to a connect request: `{"status_code", "type": "connect_response", "response":
+status_code == 200, "connection_id"}` -/
+def connectAnswer (a : Nat × Option Nat) : Ans :=
+  { type := some .connectResponse, response := a.1 == 200, connId := a.2, status := a.1 }
+
+/-- the answer to a query: only a 200 answer carries the query's uuid (`C17_tr_process_sql`); a 401 / 500 from branches without
+`"type"` is ignored by the client altogether - either way no success is recorded for the waiting query -/
+def sqlAnswer (a : Nat × Option Nat) : Ans :=
+  { type := some .sql, status := a.1, uuid := a.1 == 200 }
+
 /-! ### backup and restore (database_service.py + the FTP pair) -/
 
 def Backup.serves (b : Backup) : Bool := b.node.isOn && b.ftps == .running
@@ -375,6 +421,75 @@ def ftpRequestFile (s : Server) (b : Backup) (pathReq pathResp sendOk : Bool) : 
         | none => ({ s1 with downloads := some bh, dlFolder := true }, true)
       else (s1, true)
 
+/-! #### vocabulary of the TRANSLATED FTP layer (Gen/DatabaseFtpTr.lean, harness/extract/database_ftp_tr.py)
+
+The translated `FTPClient` / `FTPServer` / `FTPServiceABC` methods work on `FtpW`: both ends of the conversation and the path
+between them.  `C17_tr_ftp_send_file` / `C17_tr_ftp_request_file` prove them equal to `ftpSendFile` / `ftpRequestFile` above. -/
+
+inductive FtpCmd | port | stor | retr | quit | other
+deriving DecidableEq, Repr
+
+inductive FtpStatus | ok | error | notFound
+deriving DecidableEq, Repr
+
+/-- the three named places the database's transfers use: `database/database.db` and `downloads/database.db` on the database
+host, `<uuid>/database.db` on the backup host -/
+inductive Loc | dbFile | stored | downloads
+deriving DecidableEq, Repr
+
+/-- an `FTPPacket`: the command, the status code the receiver writes INTO the object the sender still holds, and the
+arguments as far as they are used -/
+structure FtpPkt where
+  cmd : Option FtpCmd := none
+  status : Option FtpStatus := none
+  src : Option Loc := none
+  dest : Option Loc := none
+  health : Option FHealth := none
+  /-- PORT: `is_valid_port(ftp_command_args)` -/
+  portArg : Bool := true
+deriving DecidableEq, Repr
+
+inductive Side | client | server
+deriving DecidableEq, Repr
+
+structure FtpW where
+  s : Server
+  b : Backup
+  pathReq : Bool
+  pathResp : Bool
+  big : Bool
+  sendOk : Bool
+  /-- what `send` reports for a frame that does not arrive (unknown to the model: every theorem quantifies over it) -/
+  lost : Bool
+deriving DecidableEq, Repr
+
+/-- `_can_perform_action()` of the FTP client on the database host / of the FTP server on the backup host -/
+def FtpW.canAct (w : FtpW) : Side → Bool
+  | .client => w.s.ftpcAct
+  | .server => w.b.serves
+
+def FtpW.getFile (w : FtpW) : Side → Loc → Option FHealth
+  | .client, .dbFile => w.s.file
+  | .client, .downloads => w.s.downloads
+  | .server, .stored => w.b.stored
+  | _, _ => none
+
+/-- `file_system.create_file`: `none` = it raises (a live file of that name exists); the new file is GOOD; a place the model
+does not track on that host is "created" without a trace -/
+def FtpW.createFile (w : FtpW) : Side → Loc → Option FtpW
+  | .client, .dbFile => if w.s.file.isSome then none else some { w with s := { w.s with file := some .good, folder := true } }
+  | .client, .downloads =>
+    if w.s.downloads.isSome then none else some { w with s := { w.s with downloads := some .good, dlFolder := true } }
+  | .server, .stored => if w.b.stored.isSome then none else some { w with b := { w.b with stored := some .good } }
+  | _, _ => some w
+
+/-- `file.health_status = h` -/
+def FtpW.setHealth (w : FtpW) : Side → Loc → FHealth → FtpW
+  | .client, .dbFile, h => { w with s := { w.s with file := w.s.file.map (fun _ => h) } }
+  | .client, .downloads, h => { w with s := { w.s with downloads := w.s.downloads.map (fun _ => h) } }
+  | .server, .stored, h => { w with b := { w.b with stored := w.b.stored.map (fun _ => h) } }
+  | _, _, _ => w
+
 /-- `backup_database`: the guards, then the transfer. -/
 def backupDatabase (s : Server) (b : Backup) (pathReq : Bool) (big : Bool := true) : Server × Backup × Bool :=
   if !s.canAct then (s, b, false)
@@ -391,11 +506,12 @@ def restoreBackup (s : Server) (b : Backup) (pathReq pathResp : Bool) (sendOk : 
   else if !s.backupConfigured then (s, false)
   else if s.ftpc.isNone then (s, false)
   else
-    let r := ftpRequestFile { s with downloads := none } b pathReq pathResp sendOk
+    let r := ftpRequestFile { s with downloads := none, dlDeleted := s.dlDeleted ++ s.downloads.toList } b pathReq pathResp sendOk
     if !r.2 then (r.1, false)
     else match r.1.downloads with
       | none => (r.1, false)
-      | some d => ({ r.1 with file := some d, folder := true, health := .good }, true)
+      | some d => ({ r.1 with file := some d, folder := true, health := .good,
+                              fileDeleted := r.1.fileDeleted ++ r.1.file.toList }, true)
 
 /-! ### requests on the database service (validators of service.py, then the method) -/
 
@@ -451,12 +567,12 @@ def Server.powerOff (s : Server) : Server :=
 /-- `file_system.delete_file('database','database.db')` -/
 def Server.fileDelete (s : Server) : Server × Bool :=
   match s.file with
-  | some _ => ({ s with file := none }, true)
+  | some h => ({ s with file := none, fileDeleted := s.fileDeleted ++ [h] }, true)
   | none => (s, false)
 
 /-- `file_system.delete_folder('database')`: the folder goes, and the live file with it -/
 def Server.folderDelete (s : Server) : Server × Bool :=
-  if s.folder then ({ s with file := none, folder := false }, true) else (s, false)
+  if s.folder then ({ s with file := none, folder := false, fileDeleted := [] }, true) else (s, false)
 
 /-- administrative changes on the database host that touch neither the connection table nor the data -/
 inductive Admin
@@ -495,12 +611,15 @@ def Server.admin (s : Server) : Admin → Server × Option Bool
         | .restart =>
           if f = .running then ({ s with ftpc := some .restarting, ftpcRestartCd := ftpcRestartDur }, some true) else (s, none)
         | .fix =>
-          -- validator RUNNING, then `Software.fix`: accepted from GOOD (→ FIXING with the countdown), refused while FIXING
+          -- validator RUNNING, then `Software.fix`: accepted from GOOD / COMPROMISED (→ FIXING with the countdown), refused
+          -- while FIXING
           if f = .running then
             match s.ftpcFix with
-            | none => ({ s with ftpcFix := some ftpcFixDur }, some true)
+            | none => ({ s with ftpcFix := some ftpcFixDur, ftpcComp := false }, some true)
             | some _ => (s, some false)
           else (s, none)
+        -- `compromise` (no validator): health COMPROMISED - also out of FIXING, whose countdown then stands still
+        | .compromise => ({ s with ftpcComp := true, ftpcFix := none }, some true)
         | .scan => if f = .running then (s, some true) else (s, none)
         | r => match ftpcRequest f r with
           | some f' => ({ s with ftpc := some f' }, some true)
@@ -511,7 +630,7 @@ def Server.admin (s : Server) : Admin → Server × Option Bool
     -- node is ON, without connections, appended to `node.services`
     if s.ftpc.isSome && !cfg then (s, none)
     else ({ s with ftpc := some (if s.node.isOn then .running else .stopped), ftpConn := false, ftpcRestartCd := 0,
-                   ftpcFix := none, ftpcFirst := false }, some true)
+                   ftpcFix := none, ftpcComp := false, ftpcFirst := false }, some true)
   | .svcUninstall =>
     -- the port-map entry is removed only when it is the service's own
     if s.installed then ({ s with installed := false, portMine := false }, some true) else (s, none)
@@ -526,29 +645,96 @@ def Server.admin (s : Server) : Admin → Server × Option Bool
 inductive InstallOut | refused | raised | done
 deriving DecidableEq, Repr
 
+/-- the configuration given to a run-time install: `db_password`, `backup_server_ip` given?, `fixing_duration`,
+`starting_health_state` -/
+structure InstCfg where
+  pw : Option Nat := none
+  bk : Bool := true
+  fixDur : Nat := 2
+  health : Health := .good
+deriving DecidableEq, Repr
+
 /-- `software_manager.install(DatabaseService, config)` at run time. `cfg = none`: no configuration (refused while the
-service is installed); `some (pw, bk)`: `db_password = pw`, `backup_server_ip` given iff `bk`.  The constructor creates
-`database/database.db` and RAISES when a live file of that name exists (nothing has changed at that point: the old
-instance is uninstalled only after the new one was constructed).  Otherwise the new instance replaces the old one: empty
-connection table, default `max_sessions` / durations, health GOOD, started iff the node is ON, a fresh GOOD database
-file, its own uuid (so no backup of its own on the backup host: `step` clears `bk.stored`), the (5432, tcp) entry of the
-port map (taken over even from a co-located client), and an FTP client installed by `DatabaseService.install()` if there
-is none. -/
-def Server.reinstall (s : Server) (cfg : Option (Option Nat × Bool)) : Server × InstallOut :=
+service is installed).  The constructor creates `database/database.db` and RAISES when a live file of that name exists
+(nothing has changed at that point: the old instance is uninstalled only after the new one was constructed).  Otherwise the
+new instance replaces the old one: empty connection table, default `max_sessions` / restart duration, the configured fixing
+duration and starting health (FIXING starts with the full countdown; UNUSED becomes GOOD when the service starts), started
+iff the node is ON, a fresh GOOD database file, its own uuid (so no backup of its own on the backup host: `step` moves
+`bk.stored` to the orphans), the (5432, tcp) entry of the port map (taken over even from a co-located client), and an FTP
+client installed by `DatabaseService.install()` if there is none. -/
+def Server.reinstall (s : Server) (cfg : Option InstCfg) : Server × InstallOut :=
   if s.installed && cfg.isNone then (s, .refused)
   else if s.file.isSome then (s, .raised)
   else
     let on := s.node.isOn
     let st : SvcState := if on then .running else .stopped
+    let c : InstCfg := cfg.getD { bk := false }
     let s1 : Server :=
-      { s with installed := true, op := st, health := .good, restartCd := 0, restartDur := 5, fixCd := 0, fixDur := 2,
-               password := match cfg with | some c => c.1 | none => none,
-               backupConfigured := match cfg with | some c => c.2 | none => false,
+      { s with installed := true, op := st, health := if on && c.health == .unused then .good else c.health,
+               restartCd := 0, restartDur := 5, fixCd := if c.health == .fixing then c.fixDur else 0, fixDur := c.fixDur,
+               password := c.pw, backupConfigured := c.bk,
                conns := [], maxSessions := 100, file := some .good, folder := true, portMine := true, portCo := false,
                ftpcFirst := true }
     match s.ftpc with
     | some _ => (s1, .done)
-    | none => ({ s1 with ftpc := some st, ftpConn := false, ftpcRestartCd := 0, ftpcFix := none, ftpcFirst := false }, .done)
+    | none => ({ s1 with ftpc := some st, ftpConn := false, ftpcRestartCd := 0, ftpcFix := none, ftpcComp := false,
+                         ftpcFirst := false }, .done)
+
+/-- one folder as far as `database.db` is concerned: the live file, the deleted copies (oldest first), the folder exists -/
+structure Fold where
+  live : Option FHealth
+  deleted : List FHealth
+  present : Bool
+deriving DecidableEq, Repr
+
+/-- requests of the file-system request API (`['file_system', ...]` on the database host) on `<folder>/database.db` -/
+inductive FsAct
+  | fcorrupt | frepair | frestore | fscan   -- `['file', folder, 'database.db', corrupt|repair|restore|scan]`
+  | fdelete                                  -- `['delete', 'file', folder, 'database.db']`
+  | fundelete                                -- `['restore', 'file', folder, 'database.db']`
+  | focorrupt | forepair                     -- `['folder', folder, corrupt|repair]`
+  | fodelete                                 -- `['delete', 'folder', folder]`
+  | fofdelete                                -- `['folder', folder, 'delete', 'database.db']`
+deriving DecidableEq, Repr
+
+/-- `none` = refused by a validator (file / folder does not exist) -/
+def Fold.act (f : Fold) : FsAct → Fold × Option Bool
+  | .fcorrupt => match f.live with
+    | some h => ({ f with live := some (if h = .good then .corrupt else h) }, some true) | none => (f, none)
+  | .frepair => match f.live with
+    | some h => ({ f with live := some (if h = .corrupt then .good else h) }, some true) | none => (f, none)
+  | .frestore => match f.live with
+    | some h => ({ f with live := some (if h = .corrupt then .good else h) }, some true) | none => (f, none)
+  | .fscan => match f.live with | some _ => (f, some true) | none => (f, none)
+  | .fdelete => match f.live with
+    | some h => ({ f with live := none, deleted := f.deleted ++ [h] }, some true) | none => (f, none)
+  | .fundelete =>
+    -- `restore_file`: a live file is "restored" in place (CORRUPT → GOOD); otherwise the OLDEST deleted copy comes back
+    if !f.present then (f, some false)
+    else match f.live with
+      | some h => ({ f with live := some (if h = .corrupt then .good else h) }, some true)
+      | none => match f.deleted with
+        | h :: rest => ({ f with live := some h, deleted := rest }, some true)
+        | [] => (f, some false)
+  | .focorrupt => if !f.present then (f, none) else
+    ({ f with live := f.live.map (fun h => if h = .good then .corrupt else h) }, some true)
+  | .forepair => if !f.present then (f, none) else
+    ({ f with live := f.live.map (fun h => if h = .corrupt then .good else h) }, some true)
+  | .fodelete => if !f.present then (f, none) else ({ live := none, deleted := [], present := false }, some true)
+  | .fofdelete => if !f.present then (f, none) else
+    match f.live with
+    | some h => ({ f with live := none, deleted := f.deleted ++ [h] }, some true)
+    | none => (f, some false)
+
+/-- a file-system request on `database/` (`db = true`) or `downloads/`; every request needs the node ON -/
+def Server.fsr (s : Server) (db : Bool) (a : FsAct) : Server × Option Bool :=
+  if !s.node.isOn then (s, none)
+  else if db then
+    let r := ({ live := s.file, deleted := s.fileDeleted, present := s.folder } : Fold).act a
+    ({ s with file := r.1.live, fileDeleted := r.1.deleted, folder := r.1.present }, r.2)
+  else
+    let r := ({ live := s.downloads, deleted := s.dlDeleted, present := s.dlFolder } : Fold).act a
+    ({ s with downloads := r.1.live, dlDeleted := r.1.deleted, dlFolder := r.1.present }, r.2)
 
 /-- file-system operations on `downloads/` of the database host -/
 inductive DlOp
@@ -562,7 +748,7 @@ deriving DecidableEq, Repr
 def Server.dl (s : Server) : DlOp → Server × Option Bool
   | .delete =>
     match s.downloads with
-    | some _ => ({ s with downloads := none }, some true)
+    | some h => ({ s with downloads := none, dlDeleted := s.dlDeleted ++ [h] }, some true)
     | none => (s, some false)
   | .corrupt =>
     match s.downloads with
@@ -572,7 +758,8 @@ def Server.dl (s : Server) : DlOp → Server × Option Bool
     match s.downloads with
     | some h => ({ s with downloads := some (if h = .corrupt then .good else h) }, some true)
     | none => (s, none)
-  | .folderDelete => if s.dlFolder then ({ s with downloads := none, dlFolder := false }, some true) else (s, some false)
+  | .folderDelete =>
+    if s.dlFolder then ({ s with downloads := none, dlFolder := false, dlDeleted := [] }, some true) else (s, some false)
   | .plant h =>
     match s.downloads with
     | some _ => (s, none)
@@ -956,7 +1143,8 @@ inductive Op
   | fileDelete | fileCorrupt | fileRepair | folderDelete
   | admin (a : Admin)
   | dl (a : DlOp)                           -- file-system operations on `downloads/` of the database host
-  | svcInstall (cfg : Option (Option Nat × Bool))   -- `software_manager.install(DatabaseService[, config])` at run time
+  | fsr (db : Bool) (a : FsAct)             -- the same folders through the file-system REQUEST API
+  | svcInstall (cfg : Option InstCfg)       -- `software_manager.install(DatabaseService[, config])` at run time
   | co (k : Nat)                            -- the co-located database client: 0 `get_new_connection`, 1 `query`, 2 `execute` request
   | bkDelete                                -- delete the stored copy on the backup host
   | dm (i : Nat) (q : Sql) (scan atk : Bool) (viaRequest : Bool)
@@ -1049,11 +1237,14 @@ def step (st : State) : Op → State × Out
     ({ st with srv := r.1 }, match r.2 with | some b => { res := some b } | none => { rejected := true })
   | .dl a => let r := st.srv.dl a
     ({ st with srv := r.1 }, match r.2 with | some b => { res := some b } | none => { rejected := true })
+  | .fsr db a => let r := st.srv.fsr db a
+    ({ st with srv := r.1 }, match r.2 with | some b => { res := some b } | none => { rejected := true })
   | .svcInstall cfg =>
     let r := st.srv.reinstall cfg
     match r.2 with
     -- the new instance has a new uuid: whatever the old one stored on the backup host is not ITS backup
-    | .done => ({ st with srv := r.1, bk := { st.bk with stored := none } }, { res := some true })
+    | .done => ({ st with srv := r.1, bk := { st.bk with stored := none, orphans := st.bk.orphans ++ st.bk.stored.toList } },
+                { res := some true })
     | .refused => (st, { rejected := true })
     | .raised => (st, { raised := true })
   | .co k =>
